@@ -433,6 +433,9 @@ def replay_any(prop, path):
         if code == 0:
             return False, "clean"
         raise HarnessError("replay failed: " + (err or "")[-2000:])
+    if sub.get("wasm"):
+        import wasm as W
+        return W.replay(path, sub.get("owner", prop))
     if "flavours" in sub:
         hashes = []
         for fl in sub["flavours"]:
